@@ -228,3 +228,48 @@ class BindingTableEngine:
             extra_cbs = {cb for _, cb in rules} - {cb for _, cb in g["rules"]}
             obls.append(Obligation(f"{c.module}:{g['name']}#no-other-callbacks:{sorted(extra_cbs)}", "post", [], z3.BoolVal(not extra_cbs), c.qualname, 0))
         return obls
+
+
+class ReconstructThroughInitEngine:
+    """obligations over a small container class whose __init__ establishes an identity the default pickle/copy protocol would
+    lose (AttrDict: `self.__dict__ = self`): __reduce__ rebuilds the object by CALLING the class without arguments (so __init__
+    runs), applies no state (which could rebind __dict__), carries every item, and no other pickle/copy hook interferes."""
+
+    def __init__(self, registry, opts=None):
+        self.reg = registry
+        self.trivial_frames = 0
+
+    def verify(self, c, fdef, classctx=None):
+        if classctx is None:
+            raise StaleContract(f"{c.qualname}: not a method")
+        obls = []
+
+        def emit(name, ok, node, why=""):
+            ob = Obligation(f"{c.module}:{classctx.name}#{name}", "post", [], z3.BoolVal(bool(ok)), c.qualname, getattr(node, "lineno", 0))
+            ob.why = why
+            obls.append(ob)
+        defs = {n.name: n for n in classctx.body if isinstance(n, ast.FunctionDef)}
+        init = defs.get("__init__")
+        want_init = [_norm(s) for s in c.extra.get("init_establishes", ())]
+        top = [_norm(ast.unparse(s)) for s in (init.body if init else [])]
+        for w in want_init:
+            emit(f"init-establishes:{w}", w in top, init or classctx)
+        red = defs.get("__reduce__")
+        emit("class-defines:__reduce__", red is not None, classctx, "the default protocol rebuilds the object without calling __init__")
+        if red is None:
+            return obls
+        fdef = red
+        rets = [n for n in ast.walk(fdef) if isinstance(n, ast.Return)]
+        ok_shape = len(rets) == 1 and isinstance(rets[0].value, ast.Tuple) and len(rets[0].value.elts) == 5 and len(fdef.body) == 1 + (
+            1 if fdef.body and isinstance(fdef.body[0], ast.Expr) and isinstance(fdef.body[0].value, ast.Constant) else 0)
+        emit("reduce:single-return-of-a-5-tuple", ok_shape, fdef)
+        if ok_shape:
+            e = rets[0].value.elts
+            emit("reduce:rebuilt-by-calling-the-class", _norm(ast.unparse(e[0])) in ("type(self)", "self.__class__", classctx.name), e[0])
+            emit("reduce:without-arguments-so-that-__init__-runs", isinstance(e[1], ast.Tuple) and not e[1].elts, e[1])
+            emit("reduce:no-state-applied", isinstance(e[2], ast.Constant) and e[2].value is None, e[2])
+            emit("reduce:no-list-items", isinstance(e[3], ast.Constant) and e[3].value is None, e[3])
+            emit("reduce:every-item-carried", _norm(ast.unparse(e[4])) in ("iter(self.items())", "iter(dict.items(self))"), e[4])
+        for m in c.extra.get("forbidden_methods", ()):
+            emit(f"class-defines-no:{m}", m not in defs, classctx)
+        return obls
